@@ -33,8 +33,10 @@ def _obs(name, v):
     emit(name, v)
     if t == "list" or t == "tuple":
         emit(name, "seq", len(v), [x for x in v][:3], v[:2], v[-1:], (v[0] if len(v) else None), 3 in v, sorted([repr(x) for x in v]), [i for i, _x in enumerate(v)])
+        emit(name, "seq2", v[::-1], v[1::2], v[-2:], list(reversed(v)), bool(v), "%s|%r" % (v, v), v + v if t == "list" else v * 2, [x for x in v if x == (v[0] if len(v) else None)], v == _copy(v), not (v != _copy(v)))
     elif t == "dict":
         emit(name, "dict", len(v), list(v.keys()), [repr(x) for x in v.values()], list(v.items())[:2], "k" in v, v.get("k"), [k for k in v])
+        emit(name, "dict2", bool(v), 1 in v, 1.0 in v, v.get(1), v.get(1.0), v.get("zz_absent", 7), {k: 1 for k in v} == {k: 1 for k in _copy(v)}, "%s" % (v,), sorted([repr(k) for k in v.keys()]), dict(v) == v, len(list(v.values())))
     elif t == "set":
         emit(name, "set", len(v), sorted([repr(x) for x in v]), 1 in v, [repr(x) for x in v])
     elif t == "struct":
@@ -152,6 +154,10 @@ const MUTATIONS: &[(&str, &str, bool)] = &[
     ("list", "T.extend([])", true),
     ("list", "HH = [T]\nHH[0] += []", true),
     ("list", "T[0] = T[0]", true),
+    ("dict", "K0 = list(T.keys())[0] if T else \"q\"\nT[K0] = T.get(K0)", true),
+    ("dict", "K0 = list(T.keys())[-1] if T else \"q\"\nT[K0] += 1", true),
+    ("list", "T.insert(len(T), 0)", true),
+    ("list", "T[-1] += 1", true),
     ("set", "T.discard(\"zz_absent\")", true),
     ("set", "T.update([])", true),
     ("set", "T.add(list(T)[0] if T else 1)", true),
@@ -204,7 +210,7 @@ fn obs_lines(names: &[String], pure1: &[String]) -> String {
     for n in names {
         if n == "rd0" || n.starts_with("own_eq") {
             s += &format!("emit(\"call\", \"{n}\", {n}())\n");
-        } else if n == "ad0" || n == "lp0" || pure1.contains(n) {
+        } else if n == "ad0" || n == "lp0" || n == "use_gf0" || n == "use_and0" || pure1.contains(n) {
             s += &format!("emit(\"call\", \"{n}\", {n}(3))\n");
         } else if n == "held0" {
             s += "emit(\"call\", \"held0\", held0[1](), held0[2][\"f\"](4))\n";
@@ -289,6 +295,35 @@ impl World for C04 {
             let mut pre: Vec<String> = LIB_PRELUDE.iter().map(|s| (*s).to_owned()).collect();
             pre.extend(stmts);
             stmts = pre;
+        }
+        // Globals that are re-assigned before the freeze and read by defs (inlined when the defs are
+        // re-optimised at freeze), and dicts whose keys were deleted and re-inserted.
+        if wl.chance(1, 2) {
+            stmts.extend(
+                [
+                    "GF0 = 1",
+                    "GL0 = [1]",
+                    "GS0 = \"s\"",
+                    "def use_gf0(x):\n    if GF0:\n        return [x, GF0, GL0, GS0]\n    return [x, GS0 + \"-\" + str(GF0)]",
+                    "def use_and0(x):\n    return (GF0 and x) or [GL0, x, \"%s-%s\" % (GS0, x)]",
+                    "GF0 = 0",
+                    "GL0 = GL0 + [2]",
+                    "GS0 = GS0 + \"t\"",
+                    "DR0 = {\"a\": 1, \"b\": 2, \"c\": 3, 1: \"i\"}",
+                    "DR0.pop(\"b\")",
+                    "DR0[\"b\"] = 4",
+                    "DR0.pop(\"a\")",
+                    "DR0[\"a\"] = [5]",
+                    "DB0 = {(\"k%d\" % i): i for i in range(40)}",
+                    "_ = [DB0.pop(\"k%d\" % i) for i in range(0, 40, 3)]",
+                    "DB0[\"k3\"] = 333",
+                    "SB0 = set([i * 7 for i in range(30)])",
+                    "SB0.remove(14)",
+                    "SB0.add(14)",
+                ]
+                .iter()
+                .map(|s| (*s).to_owned()),
+            );
         }
         // Empty containers (literal and emptied), and a def of the exporter itself that compares
         // its own globals with fresh equal values (re-optimised at freeze with the globals known).
